@@ -17,6 +17,8 @@ type ctxIO struct {
 	Dir      string // Read | Write
 	Mu       string // mutex field locked
 	T        string
+	Caller   *ssa.Function   // the only caller, when F is a helper that runs under the caller's mutex
+	CallSite ssa.Instruction // the call of F in Caller
 }
 
 func findCtxIO(p *Prog) []ctxIO {
@@ -73,6 +75,29 @@ func findCtxIO(p *Prog) []ctxIO {
 				}
 			}
 		})
+		if x.Mu == "" && isPrivateHelper(f) {
+			// the body of the operation split off into a helper that runs with the direction's mutex held by
+			// its only caller
+			var sites []cgEdge
+			for _, e := range p.CG().In[f] {
+				if e.Kind != "ref" {
+					sites = append(sites, e)
+				}
+			}
+			if len(sites) == 1 && sites[0].Kind == "static" {
+				g := sites[0].From
+				instrsOf(g, func(in ssa.Instruction) {
+					if cl, ok := in.(*ssa.Call); ok {
+						if op, _ := lockOp(cl); op == "lock" && x.Mu == "" && domU(in, sites[0].Site) {
+							if fr, ok := asFieldAddr(cl.Call.Args[0]); ok {
+								x.Mu = fr.Field
+								x.Caller, x.CallSite = g, sites[0].Site
+							}
+						}
+					}
+				})
+			}
+		}
 		out = append(out, x)
 	}
 	sort.Slice(out, func(i, j int) bool { return fname(out[i].F) < fname(out[j].F) })
@@ -425,6 +450,12 @@ func runC17(c *Ctx) {
 			o.Site(ret.Pos(), "return after I/O")
 			for _, v := range retValAt(ret, 0) {
 				for _, leaf := range phiLeaves(v) {
+					if leaf != nVal && isConstZero(leaf) && hasFact(ret, func(ft fact) bool {
+						cm, ok := normCmp(ft.Cond, ft.Val)
+						return ok && cm.Op == token.EQL && ((cm.X == nVal && isConstZero(cm.Y)) || (cm.Y == nVal && isConstZero(cm.X)))
+					}) {
+						continue // "return 0, e" where n == 0 was just established
+					}
 					if leaf != nVal {
 						o.Fail(ret.Pos(), "the byte count returned (%s) is not always the wrapped call's n: transferred bytes are reported as zero (or zero bytes as transferred)", leaf.String())
 					}
@@ -538,6 +569,14 @@ func runC17(c *Ctx) {
 			if cm.Dir == types.RecvOnly && strings.HasPrefix(chanRole(cm.Chan), "field "+s.T+".") && cm.Sel != nil && !cm.Sel.Blocking && domU(cm.Sel, s.IO) {
 				okClosed = true
 				o.Site(cm.Sel.Pos(), "closed test")
+			}
+		}
+		if !okClosed && s.Caller != nil {
+			for _, cm := range commsOfU(s.Caller) {
+				if cm.Dir == types.RecvOnly && strings.HasPrefix(chanRole(cm.Chan), "field "+s.T+".") && cm.Sel != nil && !cm.Sel.Blocking && domU(cm.Sel, s.CallSite) {
+					okClosed = true
+					o.Site(cm.Sel.Pos(), "closed test (in the caller that holds the mutex)")
+				}
 			}
 		}
 		if !okClosed {
